@@ -3,6 +3,7 @@
 // input line, one result per output line.
 #include <array>
 #include <cstdint>
+#include <cstdlib>
 #include <cstring>
 #include <iostream>
 #include <limits>
@@ -14,6 +15,7 @@
 #include <utility>
 #include <vector>
 
+#include <fcntl.h>
 #include <sys/mman.h>
 #include "glue.h"
 #include <nop/utility/endian.h>
@@ -293,6 +295,25 @@ static std::string DoWseq(const std::vector<Sx>& a) {
     const std::string& d = w.stream().buf.data;
     return "res=" + (out.empty() ? "-" : out) + " bytes=" + Hex(reinterpret_cast<const std::uint8_t*>(d.data()), d.size());
   }
+  if (kind == "lfd") {   // a non-blocking pipe with room for CAP more bytes: longer block writes are cut short by the kernel
+    int fds[2];
+    if (pipe(fds) != 0) return "unsupported";
+    fcntl(fds[1], F_SETPIPE_SZ, 4096);
+    const long psz = fcntl(fds[1], F_GETPIPE_SZ);
+    if (psz <= 0 || static_cast<std::size_t>(psz) < cap) { ::close(fds[0]); ::close(fds[1]); return "unsupported"; }
+    std::vector<std::uint8_t> filler(static_cast<std::size_t>(psz) - cap, 0xee);
+    if (!filler.empty() && ::write(fds[1], filler.data(), filler.size()) != static_cast<ssize_t>(filler.size())) { ::close(fds[0]); ::close(fds[1]); return "unsupported"; }
+    fcntl(fds[1], F_SETFL, fcntl(fds[1], F_GETFL) | O_NONBLOCK);
+    std::string out;
+    { nop::FdWriter w{fds[1]};
+      for (const auto& c : calls) { if (!out.empty()) out += ","; out += (c[0] == 'K') ? "nosupport" : OneWriteBytes(w, c); } }
+    std::vector<std::uint8_t> o;                  // the write end is closed: read until end of file
+    { std::uint8_t buf[4096]; ssize_t r; while ((r = ::read(fds[0], buf, sizeof buf)) > 0) o.insert(o.end(), buf, buf + r); }
+    ::close(fds[0]);
+    if (o.size() < filler.size()) return "HARNESS-ERROR pipe";
+    o.erase(o.begin(), o.begin() + static_cast<long>(filler.size()));
+    return "res=" + (out.empty() ? "-" : out) + " bytes=" + Hex(o);
+  }
   if (kind == "fd") {
     int fd = memfd_create("verifw", 0); int dupfd = dup(fd);
     std::string out;
@@ -455,7 +476,8 @@ static std::string ProtoMatrix(TypeList<Ts...> l) {
 static std::string DoProtoMatrix() {
   using I3 = int[3]; using I5 = int[5]; using F3 = float[3];
   return ProtoMatrix(TypeList<I3, I5, std::array<int, 3>, std::array<int, 5>, std::vector<int>, std::tuple<int, int, int>, std::pair<int, int>,
-                              F3, std::array<float, 3>, std::vector<float>, std::tuple<float, float, float>, int, std::string, std::vector<std::string>, std::string[3]>{});
+                              F3, std::array<float, 3>, std::vector<float>, std::tuple<float, float, float>, int, std::string, std::vector<std::string>, std::string[3],
+                              std::vector<std::vector<int>>, std::vector<std::array<int, 3>>, std::vector<std::pair<int, std::string>>, std::vector<std::tuple<int, std::string>>>{});
 }
 
 // ------------------------------------------------------------------- endian --
